@@ -187,6 +187,15 @@ EXPRS = [
     "np.iinfo(np.array([1], dtype=np.int16).dtype).max",
     "np.array([300, -1, 5])[(np.array([300, -1, 5]) >= 0) & (np.array([300, -1, 5]) <= 255)].astype(np.uint8)",
     "np.array([], dtype=float)[np.array([], dtype=float) >= 0].astype(np.uint8)",
+    "np.fmax(np.array([1.0, np.nan, np.nan]), np.array([np.nan, 2.0, np.nan]))",
+    "np.fmin.reduce(np.array([3.0, np.nan, 1.0]))",
+    "np.maximum.reduce(np.array([3.0, np.nan, 1.0]))",
+    "np.fmax(np.array([1, 5]), np.array([4, 2]))",
+    "np.arange(6).reshape(2, 3).T.strides",
+    "np.arange(6).reshape(2, 3).strides",
+    "np.arange(12).reshape(3, 4)[:, 1:3].strides",
+    "np.arange(6)[::2].strides",
+    "np.arange(6)[::-1].strides",
     "np.minimum(np.array([1, 2], dtype=np.int32), 2**40)",
     "np.array([1, 2], dtype=np.int32) + 2**31",
     "np.array([1, 2], dtype=np.int32) <= 2**40",
